@@ -127,8 +127,103 @@ class Opaque:
         return f'Opaque({self.what})'
 
 
+class BF:
+    """a value that is a *function of one symbolic source byte* b_k (k concrete): a 256-entry table of Python ints
+    (w = bit width) or bools (w = 0).  Byte classes, LUT lookups, masks and comparisons stay tables; a z3 term is
+    only built (and cached) when the solver has to decide a branch on it or the value meets another symbolic value."""
+    __slots__ = ('k', 'tab', 'w')
+
+    def __init__(self, k, tab, w):
+        self.k, self.tab, self.w = k, tab, w
+
+    def __repr__(self):
+        return f'BF(b{self.k},w{self.w},#{hash(self.tab) & 0xffff:x})'
+
+
+IDENT = tuple(range(256))
+_bf_z3_cache = {}
+_byte_vars = {}
+
+
+def bf_make(k, tab, w):
+    """normalise: constant tables collapse to the constant"""
+    first = tab[0]
+    for x in tab:
+        if x != first:
+            return BF(k, tab, w)
+    return first
+
+
+def byte_var(k):
+    v = _byte_vars.get(k)
+    if v is None:
+        v = _byte_vars[k] = z3.BitVec(f'b{k}', 8)
+    return v
+
+
+def _ranges(pred):
+    out = []
+    b = 0
+    while b < 256:
+        if pred(b):
+            e = b
+            while e + 1 < 256 and pred(e + 1):
+                e += 1
+            out.append((b, e))
+            b = e + 1
+        else:
+            b += 1
+    return out
+
+
+def _in_ranges(bv, rs):
+    parts = []
+    for lo, hi in rs:
+        if lo == hi:
+            parts.append(bv == lo)
+        elif lo == 0:
+            parts.append(z3.ULE(bv, hi))
+        elif hi == 255:
+            parts.append(z3.UGE(bv, lo))
+        else:
+            parts.append(z3.And(z3.UGE(bv, lo), z3.ULE(bv, hi)))
+    if not parts:
+        return z3.BoolVal(False)
+    return parts[0] if len(parts) == 1 else z3.Or(parts)
+
+
+def bf_z3(v):
+    """the z3 term of a BF (cached per (byte, table))"""
+    key = (v.k, v.tab, v.w)
+    r = _bf_z3_cache.get(key)
+    if r is not None:
+        return r
+    bv = byte_var(v.k)
+    tab = v.tab
+    if v.w == 0:
+        pos = _ranges(lambda b: tab[b])
+        neg = _ranges(lambda b: not tab[b])
+        r = _in_ranges(bv, pos) if len(pos) <= len(neg) else z3.Not(_in_ranges(bv, neg))
+    else:
+        if tab == IDENT and v.w == 8:
+            r = bv
+        elif v.w > 8 and all(tab[b] == b for b in range(256)):
+            r = z3.ZeroExt(v.w - 8, bv)
+        else:
+            vals = {}
+            for b in range(256):
+                vals.setdefault(tab[b], []).append(b)
+            order = sorted(vals.items(), key=lambda kv: -len(kv[1]))
+            r = z3.BitVecVal(order[0][0], v.w)
+            for val, bs in order[1:]:
+                s_ = set(bs)
+                r = z3.If(_in_ranges(bv, _ranges(lambda b: b in s_)), z3.BitVecVal(val, v.w), r)
+    _bf_z3_cache[key] = r
+    return r
+
+
 def is_sym(v):
-    return isinstance(v, z3.ExprRef)
+    return isinstance(v, (z3.ExprRef, BF))
 
 
 def deep(v):
@@ -150,6 +245,15 @@ def bvv(v, w):
 
 
 def as_bv(v, w):
+    if isinstance(v, BF):
+        if v.w == 0:
+            return z3.If(bf_z3(v), bvv(1, w), bvv(0, w))
+        t = bf_z3(v)
+        if v.w < w:
+            return z3.ZeroExt(w - v.w, t)
+        if v.w > w:
+            return z3.Extract(w - 1, 0, t)
+        return t
     if isinstance(v, bool):
         return bvv(1 if v else 0, w)
     if isinstance(v, int):
@@ -162,6 +266,8 @@ def as_bv(v, w):
 def as_bool(v):
     if isinstance(v, bool):
         return z3.BoolVal(v)
+    if isinstance(v, BF):
+        return bf_z3(v)
     return v
 
 
@@ -179,17 +285,57 @@ def simp(e):
 def s_not(a):
     if isinstance(a, bool):
         return not a
-    return simp(z3.Not(a))
+    if isinstance(a, BF):
+        return bf_make(a.k, tuple(not x for x in a.tab), 0)
+    key = a.get_id()
+    hit = _not_cache.get(key)
+    if hit is None:
+        hit = _not_cache[key] = (a, simp(z3.Not(a)))      # keep `a` alive so its id is not reused
+    return hit[1]
+
+
+_not_cache = {}
+
+
+def _unused():
+    pass
+
+
+def _bf_fold(xs, op):
+    """combine BF bools over the same byte pointwise -> list of BF / bool"""
+    groups = {}
+    for x in xs:
+        g = groups.get(x.k)
+        if g is None:
+            groups[x.k] = x
+        elif isinstance(g, bool):
+            groups[x.k] = bf_make(x.k, tuple(op(g, y) for y in x.tab), 0)
+        else:
+            groups[x.k] = bf_make(x.k, tuple(op(p, q) for p, q in zip(g.tab, x.tab)), 0)
+    return list(groups.values())
 
 
 def s_and(*xs):
     out = []
+    bfs = []
     for x in xs:
         if isinstance(x, bool):
             if not x:
                 return False
+        elif isinstance(x, BF):
+            bfs.append(x)
         else:
             out.append(x)
+    if bfs:
+        folded = _bf_fold(bfs, lambda a, b: a and b)
+        for f in folded:
+            if isinstance(f, bool):
+                if not f:
+                    return False
+            elif not out and len(folded) == 1:
+                return f
+            else:
+                out.append(bf_z3(f))
     if not out:
         return True
     return simp(z3.And(out)) if len(out) > 1 else out[0]
@@ -197,12 +343,25 @@ def s_and(*xs):
 
 def s_or(*xs):
     out = []
+    bfs = []
     for x in xs:
         if isinstance(x, bool):
             if x:
                 return True
+        elif isinstance(x, BF):
+            bfs.append(x)
         else:
             out.append(x)
+    if bfs:
+        folded = _bf_fold(bfs, lambda a, b: a or b)
+        for f in folded:
+            if isinstance(f, bool):
+                if f:
+                    return True
+            elif not out and len(folded) == 1:
+                return f
+            else:
+                out.append(bf_z3(f))
     if not out:
         return False
     return simp(z3.Or(out)) if len(out) > 1 else out[0]
@@ -357,6 +516,7 @@ class Exec:
         self.in_user_cb = 0
         self.acc = Acc()
         self.fork_mode = os.environ.get('VERIF_FORK', '0') == '1'
+        self.use_bf = os.environ.get('VERIF_BF', '1') == '1'
         self._fork_dir = None
         self._is_root = True
         self.path_max_depth = 0
@@ -366,6 +526,8 @@ class Exec:
         """is PC ∧ cond satisfiable?"""
         if isinstance(cond, bool):
             return cond
+        if isinstance(cond, BF):
+            cond = bf_z3(cond)
         if z3.is_true(cond):
             return True
         if z3.is_false(cond):
@@ -422,10 +584,12 @@ class Exec:
             if not cond:
                 raise Infeasible()
             return
+        if isinstance(cond, BF):
+            cond = bf_z3(cond)
         self.solver.add(cond)
         self.pc.append(cond)
 
-    def decide(self, conds):
+    def decide(self, conds, exhaustive=False):
         """pick the branch to follow among mutually exclusive, jointly exhaustive conditions"""
         live = []
         for i, c in enumerate(conds):
@@ -436,6 +600,8 @@ class Exec:
             live.append(i)
         if not live:
             raise Infeasible()
+        if any(isinstance(c, BF) for c in conds):
+            conds = [bf_z3(c) if isinstance(c, BF) else c for c in conds]
         if self.dpos < len(self.decisions):
             i = self.decisions[self.dpos]
             self.dpos += 1
@@ -445,7 +611,15 @@ class Exec:
             return i
         if self.deadline and time.time() > self.deadline:
             raise EngineError('time budget exhausted (inconclusive)')
-        feas = [i for i in live if self.check(conds[i])]
+        # the alternatives are jointly exhaustive and the path condition is satisfiable, so when every other
+        # alternative has been refuted the last one needs no query
+        feas = []
+        for n, i in enumerate(live):
+            if exhaustive and n == len(live) - 1 and not feas:
+                feas.append(i)
+                self.stats['implied'] = self.stats.get('implied', 0) + 1
+            elif self.check(conds[i]):
+                feas.append(i)
         if not feas:
             raise Infeasible()
         chosen = feas[0]
@@ -493,6 +667,8 @@ class Exec:
         """fork on every feasible concrete value of a symbolic bit-vector (small domains only)"""
         if not is_sym(v):
             return v
+        if isinstance(v, BF):
+            v = as_bv(v, v.w or 8)
         v = simp(v)
         if not is_sym(v):
             return v
@@ -568,6 +744,10 @@ class Exec:
         self.events.append(('load' if not self.in_user_cb else 'cbload', off, 1))
         if self.check(s_not(ok)):
             raise Violation('oob', f'out-of-bounds source read: offset {off} size 1 limit {limit}')
+        if isinstance(off, int) and self.use_bf:
+            if off >= self.N:
+                raise EngineError(f'byte_at({off}) beyond symbolic buffer N={self.N}')
+            return BF(off, IDENT, 8)
         return self.byte_at(off)
 
     # ---------------- constants
@@ -767,7 +947,7 @@ class Exec:
                     if isinstance(idx, int):
                         cur = ('cell', cur[1], cur[2] + (idx,))
                     else:
-                        cur = ('symidx', cur, idx)
+                        cur = ('symidx', cur, idx, ty)
                 else:
                     raise EngineError('index into ' + cur[0])
             else:
@@ -804,11 +984,12 @@ class Exec:
         if k == 'symidx':
             arr = self.read_lv(lv[1])
             if arr.cid is not None:
-                key = (arr.cid, lv[2].get_id())
+                ix = lv[2]
+                key = (arr.cid, ('bf', ix.k, ix.tab) if isinstance(ix, BF) else ix.get_id())
                 hit = self._select_cache.get(key)
                 if hit is not None and hit[0] is not None:
                     return hit[0]
-            r = self.sym_select(arr.fields, lv[2])
+            r = self.sym_select(arr.fields, lv[2], lv[3] if len(lv) > 3 else None)
             if arr.cid is not None and (isinstance(r, (int, bool)) or is_sym(r)):
                 self._select_cache[key] = (r, lv[2])     # keep idx alive so its id is not reused
             return r
@@ -816,8 +997,38 @@ class Exec:
             return lv[1]
         raise EngineError('read of place kind ' + k)
 
-    def sym_select(self, elems, idx):
+    def sym_select(self, elems, idx, elem_ty=None):
         """elems[idx] for a symbolic idx: group equal elements, build an ite chain (scalars) or fork"""
+        if isinstance(idx, BF):
+            n = len(elems)
+            tab = idx.tab
+            if all(t < n for t in tab):
+                if all(isinstance(e, (int, bool)) for e in elems):
+                    if isinstance(elems[0], bool):
+                        w = 0
+                    else:
+                        w = self.p.int_info(elem_ty)[0] if elem_ty is not None else 8
+                    return bf_make(idx.k, tuple(elems[t] for t in tab), w)
+                if not any(is_sym(e) for e in elems):
+                    groups = {}
+                    for b in range(256):
+                        e = elems[tab[b]]
+                        key = repr(e)
+                        g = groups.get(key)
+                        if g is None:
+                            groups[key] = (e, [b])
+                        else:
+                            g[1].append(b)
+                    gl = sorted(groups.values(), key=lambda g: -len(g[1]))
+                    if len(gl) == 1:
+                        return deep(gl[0][0])
+                    conds = []
+                    for e, bs in gl:
+                        sset = set(bs)
+                        conds.append(BF(idx.k, tuple(b in sset for b in range(256)), 0))
+                    i = self.decide(conds)
+                    return deep(gl[i][0])
+            idx = as_bv(idx, idx.w or 8)
         groups = {}
         for i, e in enumerate(elems):
             key = e.sexpr() if is_sym(e) else repr(e)
@@ -901,6 +1112,12 @@ class Exec:
         if kd['k'] in ('ptr', 'ref'):
             return self.ptr_binop(op, a, b)
         w, signed = self.p.int_info(oty)
+        if isinstance(a, BF) or isinstance(b, BF):
+            r = self.bf_binop(op, a, b, w, signed, kd['k'] == 'bool')
+            if r is not NotImplemented:
+                return r
+            a = as_bool(a) if kd['k'] == 'bool' and isinstance(a, BF) else (as_bv(a, w) if isinstance(a, BF) else a)
+            b = as_bool(b) if kd['k'] == 'bool' and isinstance(b, BF) else (as_bv(b, w) if isinstance(b, BF) else b)
         if kd['k'] == 'bool':
             return self.bool_binop(op, a, b)
         conc = isinstance(a, int) and isinstance(b, int)
@@ -996,6 +1213,79 @@ class Exec:
             raise EngineError('binop ' + op)
         return simp(r)
 
+    _CMP = {'Eq', 'Ne', 'Lt', 'Le', 'Gt', 'Ge'}
+
+    def bf_binop(self, op, a, b, w, signed, is_bool):
+        """pointwise evaluation when the operands depend on (at most) one and the same source byte"""
+        if isinstance(a, BF) and isinstance(b, BF):
+            if a.k != b.k:
+                return NotImplemented
+            k = a.k
+            ta, tb = a.tab, b.tab
+        elif isinstance(a, BF):
+            if not isinstance(b, (int, bool)):
+                return NotImplemented
+            k = a.k
+            ta, tb = a.tab, (b,) * 256
+        else:
+            if not isinstance(a, (int, bool)):
+                return NotImplemented
+            k = b.k
+            ta, tb = (a,) * 256, b.tab
+        if is_bool:
+            f = {'BitAnd': lambda x, y: bool(x) and bool(y), 'BitOr': lambda x, y: bool(x) or bool(y),
+                 'BitXor': lambda x, y: bool(x) != bool(y), 'Eq': lambda x, y: bool(x) == bool(y),
+                 'Ne': lambda x, y: bool(x) != bool(y)}.get(op)
+            if f is None:
+                return NotImplemented
+            return bf_make(k, tuple(f(x, y) for x, y in zip(ta, tb)), 0)
+        m = mask(w)
+        if signed:
+            sg = lambda v: to_signed(v & m, w)      # noqa: E731
+        else:
+            sg = lambda v: v      # noqa: E731
+        if op in ('Add', 'AddUnchecked'):
+            f = lambda x, y: (x + y) & m      # noqa: E731
+        elif op in ('Sub', 'SubUnchecked'):
+            f = lambda x, y: (x - y) & m      # noqa: E731
+        elif op in ('Mul', 'MulUnchecked'):
+            f = lambda x, y: (x * y) & m      # noqa: E731
+        elif op == 'BitAnd':
+            f = lambda x, y: x & y      # noqa: E731
+        elif op == 'BitOr':
+            f = lambda x, y: x | y      # noqa: E731
+        elif op == 'BitXor':
+            f = lambda x, y: x ^ y      # noqa: E731
+        elif op == 'Eq':
+            f = lambda x, y: x == y      # noqa: E731
+        elif op == 'Ne':
+            f = lambda x, y: x != y      # noqa: E731
+        elif op == 'Lt':
+            f = lambda x, y: sg(x) < sg(y)      # noqa: E731
+        elif op == 'Le':
+            f = lambda x, y: sg(x) <= sg(y)      # noqa: E731
+        elif op == 'Gt':
+            f = lambda x, y: sg(x) > sg(y)      # noqa: E731
+        elif op == 'Ge':
+            f = lambda x, y: sg(x) >= sg(y)      # noqa: E731
+        elif op in ('Shl', 'ShlUnchecked'):
+            f = lambda x, y: (x << (y % w)) & m      # noqa: E731
+        elif op in ('Shr', 'ShrUnchecked'):
+            f = (lambda x, y: (sg(x) >> (y % w)) & m) if signed else (lambda x, y: x >> (y % w))      # noqa: E731
+        elif op == 'Rem' and not signed:
+            if any(y == 0 for y in tb):
+                return NotImplemented
+            f = lambda x, y: x % y      # noqa: E731
+        elif op == 'Div' and not signed:
+            if any(y == 0 for y in tb):
+                return NotImplemented
+            f = lambda x, y: x // y      # noqa: E731
+        else:
+            return NotImplemented
+        ta = tuple(int(x) for x in ta)
+        tb = tuple(int(y) for y in tb)
+        return bf_make(k, tuple(f(x, y) for x, y in zip(ta, tb)), 0 if op in self._CMP else w)
+
     def bool_binop(self, op, a, b):
         if isinstance(a, bool) and isinstance(b, bool):
             return {'BitAnd': a and b, 'BitOr': a or b, 'BitXor': a != b, 'Eq': a == b, 'Ne': a != b}[op]
@@ -1028,6 +1318,10 @@ class Exec:
         w, signed = self.p.int_info(oty)
         if signed:
             raise EngineError('checked signed arithmetic')
+        if isinstance(a, BF):
+            a = as_bv(a, w)
+        if isinstance(b, BF):
+            b = as_bv(b, w)
         if isinstance(a, int) and isinstance(b, int):
             full = {'Add': a + b, 'Sub': a - b, 'Mul': a * b}[op]
             return Agg(None, None, [full & mask(w), not (0 <= full <= mask(w))])
@@ -1051,6 +1345,12 @@ class Exec:
             sw, ssigned = self.p.int_info(src_ty)
             if isinstance(v, bool):
                 return 1 if v else 0
+            if isinstance(v, BF):
+                if v.w == 0:
+                    return bf_make(v.k, tuple(1 if x else 0 for x in v.tab), w)
+                if ssigned:
+                    return bf_make(v.k, tuple(to_signed(x, sw) & mask(w) for x in v.tab), w)
+                return bf_make(v.k, tuple(x & mask(w) for x in v.tab), w)
             if isinstance(v, int):
                 if ssigned:
                     v = to_signed(v, sw)
@@ -1140,6 +1440,10 @@ class Exec:
         if k == 'unop':
             a = self.operand(fr, lt, rv[2])
             if rv[1] == 'Not':
+                if isinstance(a, BF):
+                    if a.w == 0:
+                        return bf_make(a.k, tuple(not x for x in a.tab), 0)
+                    return bf_make(a.k, tuple((~x) & mask(a.w) for x in a.tab), a.w)
                 if isinstance(a, bool):
                     return not a
                 if isinstance(a, int):
@@ -1154,6 +1458,8 @@ class Exec:
                 raise EngineError('PtrMetadata of ' + repr(a))
             if rv[1] == 'Neg':
                 w, _ = self.p.int_info(rv[3])
+                if isinstance(a, BF):
+                    return bf_make(a.k, tuple((-x) & mask(w) for x in a.tab), w)
                 if isinstance(a, int):
                     return (-a) & mask(w)
                 return simp(-a)
@@ -1311,7 +1617,18 @@ class Exec:
                     d = self.operand(fr, lt, t[1])
                     if isinstance(d, bool):
                         d = 1 if d else 0
-                    if isinstance(d, int):
+                    if isinstance(d, BF):
+                        conds = []
+                        taken = [False] * 256
+                        for val, tgt in t[2]:
+                            v = int(val)
+                            tabc = tuple((int(x) == v) for x in d.tab)
+                            taken = [a or b for a, b in zip(taken, tabc)]
+                            conds.append(bf_make(d.k, tabc, 0))
+                        conds.append(bf_make(d.k, tuple(not x for x in taken), 0))
+                        i = self.decide(conds, exhaustive=True)
+                        bb = t[2][i][1] if i < len(t[2]) else t[3]
+                    elif isinstance(d, int):
                         for val, tgt in t[2]:
                             if int(val) == d:
                                 bb = tgt
@@ -1328,7 +1645,7 @@ class Exec:
                             w = d.size()
                             conds = [simp(d == bvv(int(val), w)) for val, _ in t[2]]
                             conds.append(s_not(s_or(*conds)))
-                        i = self.decide(conds)
+                        i = self.decide(conds, exhaustive=True)
                         bb = t[2][i][1] if i < len(t[2]) else t[3]
                 elif k == 'call':
                     c = t[1]
@@ -1357,7 +1674,7 @@ class Exec:
                 elif k == 'assert':
                     c = self.operand(fr, lt, t[1])
                     ok = c if t[2] else s_not(c)
-                    i = self.decide([ok, s_not(ok)])
+                    i = self.decide([ok, s_not(ok)], exhaustive=True)
                     if i == 1:
                         raise Panic('assert: ' + t[3])
                     bb = t[4]
